@@ -202,10 +202,13 @@ def main():
 
     exit_code = 0
     n_new = 0
+    printed_known = set()
     for v in violations:
         k = match_known(pid, v, known)
         if k:
-            print("KNOWN-FINDING: property=%s %s" % (pid, k["what"]))
+            if k["what"] not in printed_known:
+                printed_known.add(k["what"])
+                print("KNOWN-FINDING: property=%s %s" % (pid, k["what"]))
             continue
         n_new += 1
         h = hashlib.sha256(json.dumps(v, sort_keys=True, default=str).encode()).hexdigest()[:12]
